@@ -593,3 +593,45 @@ placement_atoms = FunctionContract(
             ("node_mol.update(node_attrs['replace'])", "pass")],
 )
 CONTRACTS.append(placement_atoms)
+
+
+# ------------------------------------------------------------------ LinkParameterEffector.__call__: a parameter computed from the placement
+LKey, PVal, PFmt, LMol = TKey('LKey'), TKey('PVal'), TKey('PFmt'), TKey('LMol')
+
+
+def setup_lpe(cx):
+    from pyvc.builtins import list_append
+    eng = cx.eng
+    keys = cx.val('KEYS', TSeq(LKey))                        # self.keys: atoms of the link
+    match = cx.val('match', TMap(LKey, TInt))                # link atom -> atom of the molecule, for this placement
+    fmt = cx.val('FORMAT', TOpt(PFmt))
+    raw = cx.val('RAW', PVal)                                # what _apply returns for this call
+    cx.spec_env.update(KEYS=keys, FORMAT=fmt, RAW=raw)
+    CALLS = cx.heap('APPLIED', cx.box('APPLIED', TSeq(TSeq(TInt))))
+    formatted = cx.uf('formatted', [PVal, TOpt(PFmt)], PVal)
+    molecule = Obj('Molecule')
+
+    def apply_(e, m, ks):
+        e.oblige(m is molecule, 'computed:on-the-molecule-given')
+        list_append(e, CALLS, SV(TSeq(TInt), to_z3(ks, TSeq(TInt))))
+        return raw
+    eng.format_hooks['{value:{format}}'] = lambda e, value=None, format=None: SV(PVal, formatted(to_z3(value, PVal), to_z3(format, TOpt(PFmt))))
+    return dict(self=Obj('LinkParameterEffector', keys=keys, format=fmt, _apply=Builtin(apply_, '_apply')), molecule=molecule, match=match)
+
+
+link_parameter = FunctionContract(
+    FM, 'LinkParameterEffector.__call__', 'C05', setup=setup_lpe, result_ty=PVal,
+    requires=["len(old(APPLIED)) == 0"],
+    ensures=[
+        # the value is computed, once, on the molecule given and on the atoms this placement assigns to the effector's link atoms, in
+        # their order - nothing is kept from an earlier placement or another molecule - and formatted when a format was given
+        "len(APPLIED) == 1 and len(APPLIED[0]) == len(KEYS)",
+        "forall(lambda j: implies(0 <= j and j < len(KEYS), APPLIED[0][j] == match[KEYS[j]]))",
+        "result == (RAW if FORMAT is None else formatted(RAW, FORMAT))",
+    ],
+    raises={'KeyError': ["exists(lambda j: 0 <= j and j < len(KEYS) and not (KEYS[j] in match))", "len(APPLIED) == 0"]},
+    modifies=['APPLIED'],
+    canary=[("keys = [match[key] for key in self.keys]", "keys = [match[key] for key in self.keys[1:]]"),
+            ("if self.format is not None:", "if self.format is None:")],
+)
+CONTRACTS.append(link_parameter)
